@@ -81,6 +81,7 @@ Arguments be32 : simpl never.
 Arguments lookup_env : simpl never.
 Arguments set_env : simpl never.
 Ltac env := cbn in *; repeat (first [rewrite lookup_set_same | rewrite lookup_set_other by discriminate]); cbn in *.
+Ltac envg := cbn; repeat (first [rewrite lookup_set_same | rewrite lookup_set_other by discriminate]); cbn.
 
 Theorem get_code fuel s h k :
   Rep s h -> lookup_env (locals s) "key" = Some (VBytes k) ->
@@ -140,3 +141,166 @@ Qed.
 (* keys(): the keys of the table of contents *)
 Theorem keys_code s h : Rep s h -> eval s keys_expr = Val (VToc (toc h)).
 Proof. intros R. unfold keys_expr. cbn. rewrite (rep_toc _ _ R). reflexivity. Qed.
+
+(* ================= map_blocks: the scanning loop ================= *)
+Fixpoint find_while (c : stmt) : option (stmt * string * stmt) :=
+  match c with
+  | SWhile a x b => Some (a, x, b)
+  | SSeq a b | SIf _ a b => match find_while a with Some r => Some r | None => find_while b end
+  | SCall a => find_while a
+  | STryElse a b c0 => match find_while a with Some r => Some r | None => match find_while b with Some r => Some r | None => find_while c0 end end
+  | _ => None
+  end.
+
+Lemma sub_skipn f p n : sub f p n = firstn (N.to_nat n) (skipn (N.to_nat p) f).
+Proof. reflexivity. Qed.
+
+Lemma skipn_cons_len {A} (f : list A) n x rest : skipn n f = x :: rest -> skipn (S n) f = rest /\ List.length f = (n + S (List.length rest))%nat.
+Proof.
+  revert n. induction f as [|y f IH]; intros n H.
+  - rewrite skipn_nil in H. discriminate.
+  - destruct n; simpl in *.
+    + inversion H; subst. split; [reflexivity|reflexivity].
+    + destruct (IH n H) as [HA HB]. split; [exact HA|lia].
+Qed.
+
+Lemma skipn5 (f : bytes) n x1 x2 x3 x4 x5 rest :
+  skipn n f = x1 :: x2 :: x3 :: x4 :: x5 :: rest ->
+  skipn (n + 5) f = rest /\ List.length f = (n + 5 + List.length rest)%nat.
+Proof.
+  intros H. destruct (skipn_cons_len f n _ _ H) as [H1 L1]. destruct (skipn_cons_len f _ _ _ H1) as [H2 L2].
+  destruct (skipn_cons_len f _ _ _ H2) as [H3 L3]. destruct (skipn_cons_len f _ _ _ H3) as [H4 L4].
+  destruct (skipn_cons_len f _ _ _ H4) as [H5 L5]. split; [replace (n + 5)%nat with (S (S (S (S (S n))))) by lia; exact H5|simpl in *; lia].
+Qed.
+
+Record LoopSt (f : bytes) (w : bool) (p : N) (t : toc_t) (lk : option bytes) (s : state) : Prop := {
+  ls_file : file s = f;
+  ls_strm : strm s = mks p w false;
+  ls_toc : lookup_env (attrs s) "_toc" = Some (VToc t);
+  ls_pos : lookup_env (locals s) "pos" = Some (VInt p);
+  ls_size : lookup_env (locals s) "size" = Some (VInt (len f));
+  ls_key : lookup_env (locals s) "key" = Some (vopt_bytes lk)
+}.
+
+
+(* one evaluation of the loop condition: read five bytes, unpack them *)
+Lemma cnd_exec fuel cnd body f w rem p s :
+  find_while map_blocks_prog = Some (cnd, "blk_header", body) ->
+  file s = f -> strm s = mks p w false -> rem = skipn (N.to_nat p) f ->
+  exists s1, exec fuel cnd s = (s1, ONormal) /\
+    file s1 = f /\ strm s1 = mks (p + len (firstn 5 rem)) w false /\ attrs s1 = attrs s /\
+    lookup_env (locals s1) "blk_header" = Some (match unpack HBlock (firstn 5 rem) with Some v => v | None => VNone end) /\
+    lookup_env (locals s1) "pos" = lookup_env (locals s) "pos" /\ lookup_env (locals s1) "size" = lookup_env (locals s) "size" /\
+    lookup_env (locals s1) "key" = lookup_env (locals s) "key".
+Proof.
+  intros Hw Hf Hs Hrem. cbv in Hw. inversion Hw; subst cnd body; clear Hw.
+  destruct s as [f0 st at_ lo]. cbn in Hf, Hs. subst f0 st.
+  cbn [exec strm s_closed hdr_size]. unfold do_read. cbn [file strm s_pos]. rewrite sub_skipn, <- Hrem. change (N.to_nat 5) with 5%nat.
+  destruct (unpack HBlock (firstn 5 rem)) as [v|]; cbn [exec eval set_local set_pos locals file strm attrs s_wr s_closed]; envg;
+    (eexists; split; [reflexivity|]; cbn [file strm attrs locals]; repeat split; envg; reflexivity).
+Qed.
+
+Lemma len_firstn_le (l : bytes) n : n <= len l -> len (firstn (N.to_nat n) l) = n.
+Proof. unfold len. intros H. rewrite firstn_length. lia. Qed.
+
+(* one execution of the loop body on a complete five-byte block header *)
+Lemma body_exec fuel cnd body f w p t lk kl a b c d rest s1 :
+  find_while map_blocks_prog = Some (cnd, "blk_header", body) ->
+  skipn (N.to_nat p) f = kl :: a :: b :: c :: d :: rest ->
+  file s1 = f -> strm s1 = mks (p + 5) w false -> lookup_env (attrs s1) "_toc" = Some (VToc t) ->
+  lookup_env (locals s1) "blk_header" = Some (VTup [VInt kl; VInt (rd32 a b c d)]) ->
+  lookup_env (locals s1) "pos" = Some (VInt p) -> lookup_env (locals s1) "size" = Some (VInt (len f)) ->
+  lookup_env (locals s1) "key" = Some (vopt_bytes lk) ->
+  let vl := rd32 a b c d in
+  if kl + vl <=? len rest then
+    exists s2, exec fuel body s1 = (s2, ONormal) /\
+      LoopSt f w (p + 5 + kl + vl) (update t (firstn (N.to_nat kl) rest) (mkrec p kl vl)) (Some (firstn (N.to_nat kl) rest)) s2 /\
+      (forall x, x <> "_toc" -> lookup_env (attrs s2) x = lookup_env (attrs s1) x)
+  else
+    exists s2, exec fuel body s1 = (s2, OBreak) /\ file s2 = f /\ s_wr (strm s2) = w /\ s_closed (strm s2) = false /\
+      attrs s2 = attrs s1 /\ lookup_env (locals s2) "pos" = Some (VInt p) /\
+      lookup_env (locals s2) "size" = Some (VInt (len f)) /\ lookup_env (locals s2) "key" = Some (vopt_bytes lk).
+Proof.
+  intros Hw Hrem Hf Hs Ht Hb Hp Hz Hk vl. cbv in Hw. inversion Hw; subst cnd body; clear Hw.
+  destruct (skipn5 f _ _ _ _ _ _ _ Hrem) as [Hrest Hlen].
+  assert (Lf : len f = p + 5 + len rest) by (unfold len; lia).
+  destruct s1 as [f0 st at_ lo]. cbn in Hf, Hs, Ht, Hb, Hp, Hz, Hk. subst f0 st.
+  fold vl in Hb.
+  Ltac stepb Hb Hp Hz Ht := repeat (progress (cbn [exec eval locals attrs file strm s_closed s_wr s_pos set_local set_attr set_pos truthy nth_error]; envg;
+                              rewrite ?Hb, ?Hp, ?Hz, ?Ht)).
+  destruct (kl + vl <=? len rest) eqn:Ec.
+  - apply N.leb_le in Ec.
+    assert (Eg : (len f <? p + 5 + kl + vl) = false) by (apply N.ltb_ge; lia).
+    eexists. split; [|split].
+    + stepb Hb Hp Hz Ht. rewrite Eg. stepb Hb Hp Hz Ht.
+      unfold do_read. cbn [file strm s_pos]. rewrite sub_skipn.
+      replace (N.to_nat (p + 5)) with (N.to_nat p + 5)%nat by lia. rewrite Hrest.
+      rewrite len_firstn_le by lia. stepb Hb Hp Hz Ht. reflexivity.
+    + constructor; cbn [file strm attrs locals]; envg; try reflexivity.
+      * replace (p + (5 + kl + vl)) with (p + 5 + kl + vl) by lia. reflexivity.
+      * exact Hz.
+    + intros x Hx. cbn [attrs set_attr set_local set_pos]. rewrite lookup_set_other by congruence. reflexivity.
+  - apply N.leb_gt in Ec.
+    assert (Eg : (len f <? p + 5 + kl + vl) = true) by (apply N.ltb_lt; lia).
+    eexists. split.
+    + stepb Hb Hp Hz Ht. rewrite Eg. stepb Hb Hp Hz Ht. reflexivity.
+    + cbn [file strm attrs locals s_wr s_closed]. repeat split; envg; assumption.
+Qed.
+
+Lemma wloop_scan fuel cnd body f w :
+  find_while map_blocks_prog = Some (cnd, "blk_header", body) ->
+  forall n rem p t lk s,
+  (List.length rem < n)%nat -> rem = skipn (N.to_nat p) f -> LoopSt f w p t lk s ->
+  exists s', wloop (exec fuel cnd) (exec fuel body) "blk_header" n s = (s', ONormal) /\
+    let '(t', lk', p') := scan n rem p t lk in
+    file s' = f /\ s_wr (strm s') = w /\ s_closed (strm s') = false /\
+    lookup_env (attrs s') "_toc" = Some (VToc t') /\
+    (forall x, x <> "_toc" -> lookup_env (attrs s') x = lookup_env (attrs s) x) /\
+    lookup_env (locals s') "pos" = Some (VInt p') /\ lookup_env (locals s') "size" = Some (VInt (len f)) /\
+    lookup_env (locals s') "key" = Some (vopt_bytes lk').
+Proof.
+  intros Hw. induction n as [|n IH]; intros rem p t lk s Hn Hrem L; [lia|].
+  destruct L as [Lf Ls Lt Lp Lz Lk].
+  destruct (cnd_exec fuel cnd body f w rem p s Hw Lf Ls Hrem) as [s1 [E1 [F1 [S1 [A1 [B1 [P1 [Z1 K1]]]]]]]].
+  cbn [wloop]. rewrite E1. rewrite B1.
+  assert (Short : unpack HBlock (firstn 5 rem) = None ->
+          scan (S n) rem p t lk = (t, lk, p) ->
+          exists s' : state,
+            (if truthy VNone then (let '(s2, o2) := exec fuel body s1 in
+                 match o2 with ONormal => wloop (exec fuel cnd) (exec fuel body) "blk_header" n s2 | OBreak => (s2, ONormal) | _ => (s2, o2) end)
+             else (s1, ONormal)) = (s', ONormal) /\
+            (let '(t', lk', p') := (t, lk, p) in
+             file s' = f /\ s_wr (strm s') = w /\ s_closed (strm s') = false /\
+             lookup_env (attrs s') "_toc" = Some (VToc t') /\
+             (forall x, x <> "_toc" -> lookup_env (attrs s') x = lookup_env (attrs s) x) /\
+             lookup_env (locals s') "pos" = Some (VInt p') /\ lookup_env (locals s') "size" = Some (VInt (len f)) /\
+             lookup_env (locals s') "key" = Some (vopt_bytes lk'))).
+  { intros _ _. exists s1. cbn [truthy]. split; [reflexivity|]. rewrite F1, S1, A1, P1, Z1, K1. cbn [s_wr s_closed].
+    repeat split; try assumption; intros; reflexivity. }
+  destruct rem as [|kl [|a [|b [|c [|d rest]]]]];
+    try (cbn [firstn unpack scan]; apply Short; reflexivity).
+  cbn [firstn unpack]. cbn [truthy].
+  assert (Hrem' : skipn (N.to_nat p) f = kl :: a :: b :: c :: d :: rest) by (symmetry; exact Hrem).
+  assert (S1' : strm s1 = mks (p + 5) w false) by (rewrite S1; reflexivity).
+  pose proof (body_exec fuel cnd body f w p t lk kl a b c d rest s1 Hw Hrem' F1 S1') as HB.
+  rewrite A1 in HB. specialize (HB Lt). cbn [firstn unpack] in B1. specialize (HB B1).
+  rewrite P1, Z1, K1 in HB. specialize (HB Lp Lz Lk). cbn zeta in HB.
+  cbn [scan]. destruct (kl + rd32 a b c d <=? len rest) eqn:Ec.
+  - destruct HB as [s2 [E2 [L2 A2]]]. rewrite E2.
+    destruct (skipn5 f _ _ _ _ _ _ _ Hrem') as [Hrest Hlen].
+    assert (Ec' := Ec). apply N.leb_le in Ec'.
+    destruct (IH (skipn (N.to_nat (kl + rd32 a b c d)) rest) (p + 5 + kl + rd32 a b c d)
+                 (update t (firstn (N.to_nat kl) rest) (mkrec p kl (rd32 a b c d))) (Some (firstn (N.to_nat kl) rest)) s2) as [s' [E' R']].
+    + rewrite skipn_length. simpl in Hn. lia.
+    + rewrite <- Hrest. rewrite skipn_add. f_equal. lia.
+    + exact L2.
+    + exists s'. split; [exact E'|].
+      destruct (scan n (skipn (N.to_nat (kl + rd32 a b c d)) rest) (p + 5 + kl + rd32 a b c d)
+                  (update t (firstn (N.to_nat kl) rest) (mkrec p kl (rd32 a b c d))) (Some (firstn (N.to_nat kl) rest))) as [[t' lk'] p'].
+      destruct R' as [R1 [R2 [R3 [R4 [R5 [R6 [R7 R8]]]]]]]. repeat split; try assumption.
+      intros x Hx. rewrite (R5 x Hx), (A2 x Hx). reflexivity.
+  - destruct HB as [s2 [E2 [F2 [W2 [C2 [A2 [P2 [Z2 K2]]]]]]]]. rewrite E2. exists s2. split; [reflexivity|].
+    repeat split; try assumption.
+    + rewrite A2. exact Lt.
+    + intros x Hx. rewrite A2. reflexivity.
+Qed.
